@@ -144,14 +144,11 @@ def run(tier):
             core.log(t.out[-2000:])
             raise core.ToolError(f"RoutingTrace failed: {t.error} rc={t.rc}")
         verdict = {}
-        for line in t.out.splitlines():
-            line = line.strip()
-            for tag in ("UNSTABLE", "BADFOR", "BADALL"):
-                p = f'<<"{tag}", "'
-                if line.startswith(p) and line.endswith('">>'):
-                    verdict[tag] = json.loads(line[len(p):-3].replace('\\"', '"'))
-            if line.startswith('<<"JUDGED", '):
-                judged += int(line[len('<<"JUDGED", '):-2])
+        for tag in ("UNSTABLE", "BADFOR", "BADALL"):
+            v = t.printed_last(tag)
+            if v is not None:
+                verdict[tag] = v
+        judged += t.printed_int("JUDGED") or 0
         if set(verdict) != {"UNSTABLE", "BADFOR", "BADALL"}:
             raise core.ToolError("RoutingTrace produced no verdict")
         for tag, ids in verdict.items():
